@@ -211,6 +211,8 @@ static void walk_check (void)
             vh_out ("W destructed-enabled o%d", i);
           if (o->living_name)
             vh_out ("W destructed-living o%d", i);
+          if (o->sent)
+            vh_out ("W destructed-has-sentences o%d", i);
           continue;
         }
       int inl = 0;
@@ -302,13 +304,31 @@ static void snap (void)
         }
       if (o->flags & O_DESTRUCTED)
         {
-          vh_out ("S o%d D%s%s%s%s", i, o->super ? " super" : "", (o->contains || o->next_inv) ? " contains" : "",
-                  (o->flags & O_ENABLE_COMMANDS) ? " ec" : "", o->living_name ? " living" : "");
+          vh_out ("S o%d D%s%s%s%s%s", i, o->super ? " super" : "", (o->contains || o->next_inv) ? " contains" : "",
+                  (o->flags & O_ENABLE_COMMANDS) ? " ec" : "", o->living_name ? " living" : "", o->sent ? " sent" : "");
           continue;
         }
       join (big, sizeof big, o->contains, 0);
-      vh_out ("S o%d %s env=%s inv=%s ec=%d cl=%d ln=%s", i, o->name, oidstr (o->super, b), big,
-              (o->flags & O_ENABLE_COMMANDS) ? 1 : 0, (o->flags & O_CLONE) ? 1 : 0, o->living_name ? o->living_name : "0");
+      {
+        /* the sentence list: verb:owner;... */
+        static char sb[1 << 16];
+        size_t len = 0;
+        int cnt = 0;
+        sb[0] = 0;
+        for (sentence_t * st = o->sent; st && cnt < 2000; st = st->next, cnt++)
+          {
+            char b2[256];
+            len += snprintf (sb + len, sizeof sb - len - 1, "%s%s:%s", cnt ? ";" : "", st->verb ? st->verb : "?",
+                             oidstr (st->ob, b2));
+            if (len > sizeof sb - 400)
+              break;
+          }
+        if (!cnt)
+          strcpy (sb, "-");
+        vh_out ("S o%d %s env=%s inv=%s ec=%d cl=%d ln=%s sent=%s", i, o->name, oidstr (o->super, b), big,
+                (o->flags & O_ENABLE_COMMANDS) ? 1 : 0, (o->flags & O_CLONE) ? 1 : 0,
+                o->living_name ? o->living_name : "0", sb);
+      }
     }
   for (int h = 0; h < otable_size; h++)
     if (obj_table[h])
@@ -348,6 +368,11 @@ static int c08_cmd (char *line)
   if (n == 2 && !strcmp (tok[0], "t"))
     {
       char *a[1] = { tok[1] };
+      if (!master_ob || (master_ob->flags & O_DESTRUCTED))
+        {			/* (destruct_object reloads a destructed master: not reachable) */
+          vh_out ("r top !nomaster");
+          return 1;
+        }
       c08_apply ("top", 1, a, &err);
       if (err)
         vh_out ("r top !err");
@@ -369,6 +394,7 @@ static int c08_cmd (char *line)
     }
   if (n == 1 && !strcmp (tok[0], "gc"))
     {
+      command_giver = 0;	/* as backend()'s clear_state() does before remove_destructed_objects() */
       remove_destructed_objects ();
       walk_check ();
       return 1;
